@@ -737,6 +737,17 @@ pub fn gen_foreign(ch: &mut Choices, creds: &Creds, max_attrs: u64) -> RefMsg {
             m.items.push(gen_foreign_attr(ch));
         }
     }
+    // a repeated type with a freshly drawn value (the first copy may be undecodable where the second
+    // is fine, or the other way round): lookups, typed ones included, must answer with the first
+    if !many && !m.items.is_empty() && ch.rare(1, 6) {
+        let k = ch.below(m.items.len() as u64) as usize;
+        if let RefItem::Attr { ty, .. } = &m.items[k] {
+            let ty = *ty;
+            let value = if ch.coin() { gen_raw_value(ch, ty) } else { let lens: &[usize] = KNOWN_TYPES.iter().find(|(t, _)| *t == ty).map(|(_, l)| *l).unwrap_or(&[0, 1, 4]); let l = *ch.pick(lens); if matches!(ty, 0x0006 | 0x0014 | 0x0015 | 0x8022 | 0x8003) { utf8_fill(ch, l) } else { ch.bytes(l) } };
+            let at = k + 1 + ch.below((m.items.len() - k) as u64) as usize;
+            m.items.insert(at, RefItem::Attr { ty, value, pad: 0 });
+        }
+    }
     let rc = creds.reference();
     // legal tails: [], [FP], [MI], [MI256], [MI,FP], [MI256,FP], [MI,MI256], [MI256,MI], [MI,MI256,FP], [MI256,MI,FP]
     let tail = ch.below(10);
